@@ -118,3 +118,98 @@ P(name="stream_decode_contract",
   lib=STREAMLIB, stubs=REC_STUBS, contracts=["contracts/streaming.h"], defines=["VERIF_STREAM_CONTRACT"],
   harness="harness/stream_decode.c", enforce="cbor_stream_decode", replay="stream_decode",
   must_exist=[r"cbor_stream_decode\.postcondition\.14", r"rec_uint8\.assigns\.1"], min_covers=10, cost=30)
+
+# ------------------------------------------------------------------------------------------------
+# L0 encoders (C07 frames and return values, C10/C03 exact bytes, C13 no allocation)
+
+ENCLIB = ["cbor/encoding.c", "cbor/internal/encoders.c"]
+ENC_PROPS = {"C07": FUNC + FRAME, "C10": FUNC, "C03": FUNC, "C01": SAFETY, "C13": []}
+
+
+def ENC(fn, argt, calls, offset=False, extra_props=None, spec=(9, 0)):
+    """spec = (mode, major-or-byte) for the native replay: mode 0 single byte, 1 8-bit variant, 2/4/8 fixed
+    argument bytes, 9 shortest form, 16/32/64 floats."""
+    d = ["ENC_FN=" + fn, "SPEC_MODE=%d" % spec[0], "SPEC_MAJOR_=%d" % (spec[1] if spec[0] else 0), "SPEC_BYTE=%d" % spec[1]]
+    d.append("ENC_ARGT=" + argt if argt else "ENC_NOVAL")
+    if offset:
+        d.append("ENC_OFFSET")
+    props = dict(ENC_PROPS)
+    props.update(extra_props or {})
+    P(name="enc_" + fn.replace("cbor_encode_", "").replace("_cbor_encode_", "internal_"), props=props,
+      lib=ENCLIB, stubs=ALLOC_STUBS, contracts=["contracts/encoders.h"], harness="harness/encoder.c",
+      defines=d, enforce=fn, replace=calls, replay="encoders",
+      must_exist=[r"%s\.postcondition\.2" % fn.replace("_", "_"), r"\.assigns\.\d+"], min_covers=3, cost=3)
+
+
+ENC("_cbor_encode_uint8", "uint8_t", [], offset=True, spec=(1, 0))
+ENC("_cbor_encode_uint16", "uint16_t", [], offset=True, spec=(2, 0))
+ENC("_cbor_encode_uint32", "uint32_t", [], offset=True, spec=(4, 0))
+ENC("_cbor_encode_uint64", "uint64_t", [], offset=True, spec=(8, 0))
+ENC("_cbor_encode_uint", "uint64_t", ["_cbor_encode_uint8", "_cbor_encode_uint16", "_cbor_encode_uint32", "_cbor_encode_uint64"], offset=True)
+P(name="enc__byte", props=dict(ENC_PROPS), lib=ENCLIB, stubs=ALLOC_STUBS, contracts=["contracts/encoders.h"],
+  harness="harness/encoder.c", defines=["ENC_FN=_cbor_encode_byte", "ENC_ARGT=uint8_t"], enforce="_cbor_encode_byte",
+  must_exist=[r"_cbor_encode_byte\.postcondition\.2", r"\.assigns\.\d+"], min_covers=3, cost=3)
+P(name="enc_bool", props=dict(ENC_PROPS), lib=ENCLIB, stubs=ALLOC_STUBS, contracts=["contracts/encoders.h"],
+  harness="harness/encoder.c", defines=["ENC_FN=cbor_encode_bool", "ENC_ARGT=bool"], enforce="cbor_encode_bool",
+  replace=["_cbor_encode_byte"], must_exist=[r"cbor_encode_bool\.postcondition\.2"], min_covers=3, cost=3)
+for w, m in (("8", 1), ("16", 2), ("32", 4), ("64", 8)):
+    ENC("cbor_encode_uint" + w, "uint%s_t" % w, ["_cbor_encode_uint" + w], spec=(m, 0))
+    ENC("cbor_encode_negint" + w, "uint%s_t" % w, ["_cbor_encode_uint" + w], spec=(m, 1))
+ENC("cbor_encode_uint", "uint64_t", ["_cbor_encode_uint"], spec=(9, 0))
+ENC("cbor_encode_negint", "uint64_t", ["_cbor_encode_uint"], spec=(9, 1))
+for f, mj in (("bytestring_start", 2), ("string_start", 3), ("array_start", 4), ("map_start", 5)):
+    ENC("cbor_encode_" + f, "size_t", ["_cbor_encode_uint"], spec=(9, mj))
+ENC("cbor_encode_tag", "uint64_t", ["_cbor_encode_uint"], spec=(9, 6))
+for f, b in (("indef_bytestring_start", 0x5F), ("indef_string_start", 0x7F), ("indef_array_start", 0x9F),
+             ("indef_map_start", 0xBF), ("break", 0xFF), ("null", 0xF6), ("undef", 0xF7)):
+    ENC("cbor_encode_" + f, None, ["_cbor_encode_byte"], spec=(0, b))
+ENC("cbor_encode_ctrl", "uint8_t", ["_cbor_encode_uint8"], spec=(1, 7))
+ENC("cbor_encode_half", "float", ["_cbor_encode_uint16"], extra_props={"C15": FUNC + SAFETY}, spec=(16, 7))
+ENC("cbor_encode_single", "float", ["_cbor_encode_uint32"], extra_props={"C15": FUNC + SAFETY}, spec=(32, 7))
+ENC("cbor_encode_double", "double", ["_cbor_encode_uint64"], extra_props={"C15": FUNC + SAFETY}, spec=(64, 7))
+
+# C10: encoder -> decoder inverse, as lemmas over the two contracts
+
+
+def ENCDEC(fn, argt, slot, check):
+    d = ["ENC_FN=" + fn, "DEC_SLOT=" + slot, "DEC_CHECK_" + check, "VERIF_STREAM_CONTRACT"]
+    d.append("ENC_ARGT=" + argt if argt else "ENC_NOVAL")
+    P(name="encdec_" + fn.replace("cbor_encode_", ""), props={"C10": [], "C03": []},
+      lib=ENCLIB + STREAMLIB, stubs=REC_STUBS, contracts=["contracts/encoders.h", "contracts/streaming.h"],
+      harness="harness/enc_dec.c", defines=d, enforce=None, replace=[fn, "cbor_stream_decode"],
+      must_exist=[r"cbor_stream_decode\.precondition\.\d+"], min_covers=1, cost=3,
+      note="lemma over contracts: both callees replaced")
+
+
+for w in ("8", "16", "32", "64"):
+    ENCDEC("cbor_encode_uint" + w, "uint%s_t" % w, "EV_UINT" + w, "ARG")
+    ENCDEC("cbor_encode_negint" + w, "uint%s_t" % w, "EV_NEGINT" + w, "ARG")
+ENCDEC("cbor_encode_uint", "uint64_t",
+       "(in_value <= 0xff ? EV_UINT8 : in_value <= 0xffff ? EV_UINT16 : in_value <= 0xffffffffu ? EV_UINT32 : EV_UINT64)", "ARG")
+ENCDEC("cbor_encode_negint", "uint64_t",
+       "(in_value <= 0xff ? EV_NEGINT8 : in_value <= 0xffff ? EV_NEGINT16 : in_value <= 0xffffffffu ? EV_NEGINT32 : EV_NEGINT64)", "ARG")
+ENCDEC("cbor_encode_bytestring_start", "size_t", "EV_BSTR", "STR")
+ENCDEC("cbor_encode_string_start", "size_t", "EV_TSTR", "STR")
+ENCDEC("cbor_encode_array_start", "size_t", "EV_ARRAY", "ARG")
+ENCDEC("cbor_encode_map_start", "size_t", "EV_MAP", "ARG")
+ENCDEC("cbor_encode_tag", "uint64_t", "EV_TAG", "ARG")
+ENCDEC("cbor_encode_indef_bytestring_start", None, "EV_BSTR_START", "NONE")
+ENCDEC("cbor_encode_indef_string_start", None, "EV_TSTR_START", "NONE")
+ENCDEC("cbor_encode_indef_array_start", None, "EV_INDEF_ARRAY", "NONE")
+ENCDEC("cbor_encode_indef_map_start", None, "EV_INDEF_MAP", "NONE")
+ENCDEC("cbor_encode_break", None, "EV_BREAK", "NONE")
+ENCDEC("cbor_encode_null", None, "EV_NULL", "NONE")
+ENCDEC("cbor_encode_undef", None, "EV_UNDEF", "NONE")
+ENCDEC("cbor_encode_bool", "bool", "EV_BOOL", "BOOL")
+ENCDEC("cbor_encode_ctrl", "uint8_t", "EV_NONE", "CTRL")
+ENCDEC("cbor_encode_single", "float", "EV_FLOAT4", "F32")
+ENCDEC("cbor_encode_double", "double", "EV_FLOAT8", "F64")
+
+# C15: floats keep their exact bits (real loaders + real encoders, loop-free, all patterns symbolic)
+FLOATLIB = ENCLIB + ["cbor/internal/loaders.c"]
+for nm, d in (("half", "H_HALF_ROUNDTRIP"), ("single", "H_SINGLE_ROUNDTRIP"), ("double", "H_DOUBLE_ROUNDTRIP")):
+    P(name="float_%s_roundtrip" % nm, props={"C15": SAFETY, "C03": []}, lib=FLOATLIB,
+      stubs=ALLOC_STUBS + ["stubs/ldexp_model.c"], contracts=[], harness="harness/floats.c", defines=[d],
+      enforce=None, mode="plain", unwind=10, replay="floats", min_covers=2, cost=5,
+      also_verified=["_cbor_load_%s" % ("float" if nm == "single" else nm), "_cbor_decode_half", "cbor_encode_" + nm],
+      note="loop-free code, full symbolic domain: complete (the only loop is the 8-iteration byte assembly in the harness)")
